@@ -42,8 +42,13 @@ theorem exprHead_fmt : (e : XExpr) → WF W e → ∀ outer side, ∃ t ts', tok
         obtain ⟨t, ts', h1, h2⟩ := exprHead_fmt o hwf.1 precArraySubscript subObjectSide
         exact ⟨t, _, by rw [toks_sub, h1]; simp; rfl, h2⟩
       | .mem o n, hwf =>
-        obtain ⟨t, ts', h1, h2⟩ := exprHead_fmt o hwf precMember memObjectSide
-        exact ⟨t, _, by rw [toks_mem, h1]; simp; rfl, h2⟩
+        cases hmp : memObjParenX o with
+        | true =>
+          exact ⟨.p .LeftParen, (toks (fmtSubX o precMember memObjectSide) ++ [.p .RightParen]) ++ [.p .Period, .id n],
+            by rw [toks_mem, hmp, toks_wrap_true]; rfl, Or.inr (Or.inr (Or.inl rfl))⟩
+        | false =>
+          obtain ⟨t, ts', h1, h2⟩ := exprHead_fmt o hwf precMember memObjectSide
+          exact ⟨t, _, by rw [toks_mem, hmp, wrap_false, h1]; simp; rfl, h2⟩
       | .call f targs args, hwf =>
         obtain ⟨t, ts', h1, h2⟩ := exprHead_fmt f hwf.1 callObjectPrec callObjectSide
         exact ⟨t, _, by rw [toks_call, h1]; simp; rfl, h2⟩
